@@ -19,7 +19,7 @@ def feat(rng):
     r = rng.random()
     if r < 0.15:   # other constructs (items with and without operands carrying times, groups, $not) between definitions and uses:
         #            any stray capturing parenthesis they emitted would shift the numbers of the judged back-references
-        return RG.Feat(operands=0.55, ocaps=0.45, icaps=0.15, times_item=0.45, groups=0.25, nots=0.2, ogroups=0.2, group_times=0.4, hexh=0.3, deref=0.3,
+        return RG.Feat(operands=0.55, ocaps=0.45, icaps=0.15, times_item=0.45, groups=0.25, nots=0.2, ogroups=0.2, group_times=0.4, hexh=0.3, deref=0.6,
                        max_depth=1, max_spine=rng.choice([3, 4, 5, 6]))
     if r < 0.45:   # operand captures
         return RG.Feat(operands=0.9, ocaps=0.6, groups=0.15, nots=0.1, ogroups=0.15, times_item=0.1, group_times=0.2, hexh=0.15,
@@ -74,9 +74,56 @@ def twice(driver, doc, text, prep, o):
         ctx.disagreement({"rule": text, "listing": prep.text, "sinsts": []}, f"produce_regex() differs between calls on one object: {r1[:150]!r} vs {r2[:150]!r}")
 
 
+def numbering_probes(ctx, d):
+    """Every construct kind once in front of a capture definition that is used again: a stray capturing parenthesis emitted
+    by ANY node type shifts the number the back-reference points to (mechanism 'no other capturing group is ever emitted')."""
+    from jv import dsl, listing as L
+    R = {"min": 1, "max": 2}
+    kinds = {
+        "item-times": {"xor": {"times": R}},
+        "item-operands-times": {"xor": ["rsi"], "times": R},
+        "or": {"$or": ["xor", "zzz"]},
+        "or-times": {"$or": ["xor", "zzz"], "times": R},
+        "and-times": {"$and": ["xor"], "times": R},
+        "not": {"$not": ["zzz"]},
+        "not-times": {"$not": ["zzz"], "times": 1},
+        "any-order": {"$and_any_order": ["xor"]},
+        "any-order-times": {"$and_any_order": ["xor"], "times": R},
+        "deref-times": {"xor": [{"$deref": {"main_reg": "rsi"}, "times": 2}]},
+        "operand-or": {"xor": [{"$or": ["rsi", "zz"]}]},
+        "operand-or-times": {"xor": [{"$or": ["rsi", "zz"], "times": 2}]},
+        "operand-not": {"xor": [{"$not": ["zz"]}]},
+        "operand-any-order": {"xor": [{"$and_any_order": ["rsi", "si"]}]},
+        "operand-and": {"xor": [{"$and": ["rsi", "rsi"]}]},
+        "deref": {"xor": [{"$deref": {"main_reg": [{"$or": ["rsi", "rdi"]}]}}]},
+        "hex-literal": {"cmp": ["10h"]},
+        "instruction-capture": "&first",
+    }
+    saved, d.flags = d.flags, "none"           # the probe names are substrings: default (substring) matching only
+    for tail_reg in ("%rbx", "%rax"):
+        for lead in (["xor", ["(%rsi)", "(%rsi)"]], ["cmp", ["$0x10", "%rcx"]]):
+            insts = [L.SInst(0x401000, lead[0], lead[1], None, None, 3), L.SInst(0x401003, "mov", ["%rax", "%rbx"], None, None, 3),
+                     L.SInst(0x401006, "push", [tail_reg], None, None, 1), L.SInst(0x401007, "ret", [], None, None, 1)]
+            prep = dsl.Prepared(d.ws, insts, ctx.rng)
+            ctx.ran()
+            if not prep.verify(d.ws):
+                ctx.inconc("parser disagreement on synthetic listing")
+                continue
+            d.prep, d.style = prep, "numbering-probe"
+            for name, k in kinds.items():
+                if (name == "hex-literal") != (lead[0] == "cmp"):
+                    continue
+                d.run_pattern([k, {"mov": ["rax", "&a"]}, {"push": ["&a"]}], "base", True)
+                d.run_pattern([k, "&i", {"push": ["&b"]}, "ret"], "base", True) if name != "instruction-capture" else None
+                ctx.event("numbering_probes")
+    d.flags = saved
+
+
 def run_shard(ctx):
     d = drive.Driver(ctx, feat, flags="random", styles=("tiny", "tiny", "dups", "regs"), quirks=QUIRKS, classify=classify,
                      accept=reuses_capture, interesting=reuses_capture, extra=twice)
+    if ctx.shard == 0:
+        numbering_probes(ctx, d)
     d.loop(3500, 300000)
 
 
